@@ -3,6 +3,7 @@ package checks
 import (
 	"fmt"
 	"math/rand"
+	"sort"
 	"strings"
 
 	"github.com/uhn/ggql/pkg/ggql"
@@ -59,12 +60,14 @@ func vecDiff(a, b []string) string {
 }
 
 type c14Load struct {
-	Kind   string
-	Text   string
-	Expect string // "ok" | "fail" | "either"
-	Reader int    // fault offset (-1: none)
-	RKind  int
-	Add    func() []ggql.Type // when set the load is Root.AddTypes(Add()...) (fresh type objects for every root)
+	Kind    string
+	Text    string
+	Expect  string // "ok" | "fail" | "either"
+	Reader  int    // fault offset (-1: none)
+	RKind   int
+	Add     func() []ggql.Type // when set the load is Root.AddTypes(Add()...) (fresh type objects for every root)
+	Files   map[string]string  // when set the load is Root.ParseFS over these files ("*.graphql")
+	FSFault string             // "", "open", "read", "close": the fault injected into the file system of the history root
 }
 
 // apply performs the load on a root (without reader faults).
@@ -72,7 +75,28 @@ func (l c14Load) apply(root *ggql.Root) (err error) {
 	if l.Add != nil {
 		return root.AddTypes(l.Add()...)
 	}
+	if l.Files != nil {
+		return root.ParseFS(&faultyFS{files: l.Files, failOpen: -1, failRead: -1, failClose: -1}, "*.graphql")
+	}
 	return root.ParseString(l.Text)
+}
+
+// applyFaulty is apply with the load's own fault (only the history root sees it).
+func (l c14Load) applyFaulty(root *ggql.Root, r *rand.Rand) error {
+	if l.Files == nil || l.FSFault == "" {
+		return l.apply(root)
+	}
+	f := &faultyFS{files: l.Files, failOpen: -1, failRead: -1, failClose: -1}
+	k := r.Intn(len(l.Files))
+	switch l.FSFault {
+	case "open":
+		f.failOpen = k
+	case "read":
+		f.failRead = k
+	default:
+		f.failClose = k
+	}
+	return root.ParseFS(f, "*.graphql")
 }
 
 // c14AddTypes: loads through the Go API. Types are built fresh on every call; references are *ggql.Ref like the parser makes them.
@@ -285,8 +309,34 @@ func runC14(c *run.Ctx) {
 			var load c14Load
 			load.Reader = -1
 			switch k := r.Intn(12); {
-			case k >= 10: // a load through the Go API
+			case k >= 10 && r.Intn(2) == 0: // a load through the Go API
 				load = c14AddTypes(r, base, tag)
+				nontriv = nontriv || load.Expect == "fail"
+			case k >= 10: // several files through ParseFS: valid, one bad file among good ones, or a file system that fails
+				frs := c14ValidFragments(r, base, tag, 2+r.Intn(3))
+				files := map[string]string{}
+				for fi, fr := range frs {
+					files[fmt.Sprintf("part%d.graphql", fi)] = fr
+				}
+				files["ignored.txt"] = "type {"
+				load = c14Load{Kind: "parsefs-valid", Expect: "either", Reader: -1, Files: files}
+				switch r.Intn(4) {
+				case 0:
+					f := c14Failures[r.Intn(len(c14Failures))]
+					files["zbad.graphql"] = f.text
+					load.Kind, load.Expect = "parsefs-bad-file-"+f.kind, "fail"
+				case 1:
+					load.FSFault = []string{"open", "read", "close"}[r.Intn(3)]
+					load.Kind, load.Expect = "parsefs-fault-"+load.FSFault, "fail"
+				}
+				names := make([]string, 0, len(files))
+				for fn := range files {
+					names = append(names, fn)
+				}
+				sort.Strings(names)
+				for _, fn := range names {
+					load.Text += "--- " + fn + "\n" + files[fn] + "\n"
+				}
 				nontriv = nontriv || load.Expect == "fail"
 			case k < 5: // failing document after some valid content
 				f := c14Failures[r.Intn(len(c14Failures))]
@@ -317,7 +367,7 @@ func runC14(c *run.Ctx) {
 				if load.Reader >= 0 {
 					lerr = root.ParseReader(&faultyReader{data: []byte(load.Text), at: load.Reader, kind: load.RKind})
 				} else {
-					lerr = load.apply(root)
+					lerr = load.applyFaulty(root, r)
 				}
 			})
 			c.Bucket("load_kind", load.Kind)
